@@ -29,7 +29,7 @@ theorem tie_sites_UserParse : Generated.sites_UserParse =
 
 theorem tie_sites_GroupParse : Generated.sites_GroupParse =
     [("index", "parts", "0"), ("index", "parts", "1"), ("index", "parts", "2"), ("index", "parts", "2"),
-     ("index", "parts", "3")] := by rfl
+     ("index", "parts", "3"), ("index", "parts", "3")] := by rfl
 
 /-- the loops of `Load`: one scanner loop each, nothing else -/
 theorem tie_loops_Load : Generated.loops_UserLoad = [("cond scanner.Scan()", 1)] ∧
@@ -83,7 +83,7 @@ theorem groupParse_of_guard (gs : GuardList) (h : Admits (findLen gs "parts") 4)
       idx_bind_ne_oob (by omega) fun _ => ?_
     split
     · simp
-    · exact idx_bind_ne_oob (by omega) fun _ => by simp
+    · exact idx_bind_ne_oob (by omega) fun _ => idx_bind_ne_oob (by omega) fun _ => by simp
 
 /-- T: `GroupEntry.Parse` never indexes out of range -/
 theorem groupParse_no_oob (line : Text) : groupParse Generated.lenGuards_GroupParse line ≠ .oob :=
@@ -107,7 +107,7 @@ theorem userParse_refines (line : Text) :
 
 theorem groupParse_refines (line : Text) :
     groupParse Generated.lenGuards_GroupParse line = Res.ofOption (parseGroup line) := by
-  unfold groupParse parseGroup
+  unfold groupParse parseGroup parseGroupWith
   rw [groupGuard]
   generalize splitOnChar ':' (trimSpace line) = parts
   match parts with
